@@ -445,3 +445,39 @@ func unstableIndexField(owner, name string) bool {
 	}
 	return false
 }
+
+// addressTaken: fn is used as a value somewhere in the module (stored, passed, bound as a method
+// value) rather than only called statically; its call sites are then not all known.
+func (p *Prog) addressTaken(fn *ssa.Function) bool {
+	if p.addrTaken == nil {
+		p.addrTaken = map[*ssa.Function]bool{}
+		for _, f := range p.ModuleFuncs() {
+			eachInstr(f, func(_ *ssa.BasicBlock, in ssa.Instruction) {
+				var ops []*ssa.Value
+				for _, op := range in.Operands(ops) {
+					if op == nil || *op == nil {
+						continue
+					}
+					g, ok := (*op).(*ssa.Function)
+					if !ok {
+						continue
+					}
+					if c, isCall := in.(ssa.CallInstruction); isCall && c.Common().Value == ssa.Value(g) {
+						// the callee position of a static call
+						isArg := false
+						for _, a := range c.Common().Args {
+							if a == ssa.Value(g) {
+								isArg = true
+							}
+						}
+						if !isArg {
+							continue
+						}
+					}
+					p.addrTaken[g] = true
+				}
+			})
+		}
+	}
+	return p.addrTaken[fn]
+}
